@@ -62,6 +62,9 @@ def units(tier, seed):
     for L in range(1, maxlen + 1):
         for minimize in (False, True):
             us.append({"kind": "single", "L": L, "minimize": minimize, "alpha": alpha if L <= 5 else [0, 1, 2]})
+    inf = float("inf")
+    for minimize in (False, True):
+        us.append({"kind": "single", "L": 3, "minimize": minimize, "alpha": [inf, -inf, 1]})
     for mode in ("list-FF", "list-FT", "list-TT", "bool-F", "bool-T", "aggregate"):
         for L in range(1, 4 if tier == "quick" else 5):
             us.append({"kind": "multi", "L": L, "mode": mode})
